@@ -40,8 +40,25 @@ func (p *Prog) delegatedFilter(st *ssa.Store, field string) *delegatedFilterInfo
 	for i, par := range h.Params {
 		switch t := par.Type().Underlying().(type) {
 		case *types.Slice:
+			// the accumulated list: the slice parameter that is used only as the start of the
+			// accumulation (directly, or through list[:0]); another slice parameter of the same
+			// type may be the list that is filtered
 			if types.Identical(t, st.Val.Type().Underlying()) {
-				listIdx = i
+				accum := true
+				for _, ref := range *par.Referrers() {
+					switch r := ref.(type) {
+					case *ssa.DebugRef, *ssa.Phi:
+					case *ssa.Slice:
+						if r.X != ssa.Value(par) {
+							accum = false
+						}
+					default:
+						accum = false
+					}
+				}
+				if accum && listIdx < 0 {
+					listIdx = i
+				}
 			}
 		case *types.Signature:
 			if t.Params().Len() == 1 && t.Results().Len() == 1 {
